@@ -15,6 +15,7 @@
 #include <llvm/IRReader/IRReader.h>
 #include <llvm/Support/SourceMgr.h>
 #include <llvm/Support/raw_ostream.h>
+#include <algorithm>
 #include <cstdio>
 #include <map>
 #include <set>
@@ -41,6 +42,7 @@ struct Ctx {
   std::set<std::string> usednames;
   std::map<const GlobalVariable*, int> tiid;  // typeinfo ids
   std::set<std::string> externs;
+  std::map<const Value*, Type*> allocType;   // typed allocation sites
   int ntypes = 0;
   Ctx(Module& m) : M(m), DL(m.getDataLayout()) {}
 
@@ -160,6 +162,35 @@ struct Ctx {
 
 struct FnEmit;
 static std::string cexpr(Ctx& C, Constant* c, bool init);
+// Static type of the whole object that starts at address v and is len bytes long, if it can be read off the IR: either v is
+// (a cast of) a pointer to a sized aggregate of that size, or a GEP whose trailing indices are all zero ("address of the
+// first member of the first member ...") through an aggregate of that size.
+static Type* objTypeAt(const DataLayout& DL, Value* v, uint64_t len) {
+  v = v->stripPointerCasts();
+  Type* e = v->getType()->getPointerElementType();
+  if (e->isSized() && (e->isStructTy() || e->isArrayTy()) && DL.getTypeAllocSize(e) == len) return e;
+  auto* g = dyn_cast<GEPOperator>(v);
+  if (!g) return nullptr;
+  std::vector<Type*> tys; std::vector<bool> zero;
+  Type* cur = g->getSourceElementType();
+  unsigned n = g->getNumIndices(), k = 0;
+  for (auto it = g->idx_begin(); it != g->idx_end(); ++it, ++k) {
+    auto* ci = dyn_cast<ConstantInt>(it->get());
+    if (k > 0) {
+      if (auto* st = dyn_cast<StructType>(cur)) { if (!ci) return nullptr; cur = st->getElementType(ci->getZExtValue()); }
+      else if (auto* at = dyn_cast<ArrayType>(cur)) cur = at->getElementType();
+      else return nullptr;
+    }
+    tys.push_back(cur); zero.push_back(ci && ci->isZero());
+  }
+  // tys[i] = type addressed after applying indices 0..i ; candidate i is valid if indices i+1..n-1 are all zero
+  for (unsigned i = 0; i + 1 < n; i++) {
+    bool allz = true; for (unsigned j = i + 1; j < n; j++) if (!zero[j]) allz = false;
+    Type* t = i == 0 ? g->getSourceElementType() : tys[i];
+    if (allz && t->isSized() && (t->isStructTy() || t->isArrayTy()) && DL.getTypeAllocSize(t) == len) return t;
+  }
+  return nullptr;
+}
 // C string literal behind a constant i8* (GEP into / pointer to a constant char array), or "" if not a literal
 static bool literalOf(Value* v, std::string& out) {
   v = v->stripPointerCasts();
@@ -380,7 +411,15 @@ struct FnEmit {
         }
         body << "  " << (f->getIntrinsicID() == Intrinsic::memmove ? "memmove(" : "memcpy(") << A(0) << ", " << A(1) << ", " << A(2) << ");\n"; return true;
       }
-      case Intrinsic::memset: body << "  memset(" << A(0) << ", " << A(1) << ", " << A(2) << ");\n"; return true;
+      case Intrinsic::memset: {
+        // zero-fill of a whole typed object: typed aggregate assignment
+        auto* len = dyn_cast<ConstantInt>(cb.getArgOperand(2)); auto* bv = dyn_cast<ConstantInt>(cb.getArgOperand(1));
+        Value* d0 = cb.getArgOperand(0)->stripPointerCasts();
+        Type* t = nullptr;
+        if (len && bv && bv->isZero()) { t = objTypeAt(C.DL, cb.getArgOperand(0), len->getZExtValue()); if (!t) { auto f2 = C.allocType.find(d0); if (f2 != C.allocType.end() && C.DL.getTypeAllocSize(f2->second) == len->getZExtValue()) t = f2->second; } }
+        if (t) { std::string tn = C.ty(t); body << "  *(" << tn << "*)" << A(0) << " = (" << tn << "){0};\n"; return true; }
+        body << "  memset(" << A(0) << ", " << A(1) << ", " << A(2) << ");\n"; return true;
+      }
       case Intrinsic::trap: body << "  vf_trap();\n"; return true;
       case Intrinsic::expect: body << "  " << lhs << A(0) << ";\n"; return true;
       case Intrinsic::is_constant: body << "  " << lhs << "0;\n"; return true;
@@ -594,11 +633,10 @@ struct FnEmit {
         StringRef fn = cf->getName();
         if (fn == "vf_objcopy") {
           // whole-object copy requested by the library model: typed aggregate assignment when the static type is known
-          Value* d0 = cb->getArgOperand(0)->stripPointerCasts(); Value* s0 = cb->getArgOperand(1)->stripPointerCasts();
           auto* len = dyn_cast<ConstantInt>(cb->getArgOperand(2));
-          Type* dt = d0->getType()->getPointerElementType(); Type* st = s0->getType()->getPointerElementType();
-          if (len && dt == st && dt->isSized() && (dt->isStructTy() || dt->isArrayTy()) && C.DL.getTypeAllocSize(dt) == len->getZExtValue())
-            body << "  *" << val(d0) << " = *" << val(s0) << ";\n";
+          Type* dt = len ? objTypeAt(C.DL, cb->getArgOperand(0), len->getZExtValue()) : nullptr;
+          Type* st = len ? objTypeAt(C.DL, cb->getArgOperand(1), len->getZExtValue()) : nullptr;
+          if (dt && dt == st) { std::string tn = C.ty(dt); body << "  *(" << tn << "*)" << val(cb->getArgOperand(0)) << " = *(" << tn << "*)" << val(cb->getArgOperand(1)) << ";\n"; }
           else { errs() << "warning: untyped vf_objcopy in " << F.getName() << "\n"; body << "  memcpy(" << val(cb->getArgOperand(0)) << ", " << val(cb->getArgOperand(1)) << ", " << val(cb->getArgOperand(2)) << ");\n"; }
           if (auto* inv = dyn_cast<InvokeInst>(cb)) { body << "  "; edge(I.getParent(), inv->getNormalDest(), body); body << "\n"; }
           return;
@@ -639,6 +677,13 @@ struct FnEmit {
               if (hit) { best = st; break; }
             }
           }
+          if (!best && isc && cn >= 16) {
+            // last resort: the module has exactly one identified struct type of that size
+            Type* uniq = nullptr; int cnt = 0;
+            for (StructType* st : C.M.getIdentifiedStructTypes()) if (!st->isOpaque() && st->isSized() && C.DL.getTypeAllocSize(st) == cn) { uniq = st; cnt++; }
+            if (cnt == 1) best = uniq;
+          }
+          if (best) C.allocType[cb] = best;
           std::string sz = val(cb->getArgOperand(0));
           if (best) { std::string tn = C.ty(best); body << "  " << lhs << "(uint8_t*)malloc(sizeof(" << tn << ") * (" << sz << " / sizeof(" << tn << ")));\n"; }
           else body << "  " << lhs << "(uint8_t*)malloc(" << sz << ");\n";
@@ -646,6 +691,54 @@ struct FnEmit {
           return;
         }
         if (fn == "free" || fn == "_ZdlPv" || fn == "_ZdaPv" || fn == "_ZdlPvm") { body << "  free(" << val(cb->getArgOperand(0)) << ");\n"; if (auto* inv = dyn_cast<InvokeInst>(cb)) { body << "  "; edge(I.getParent(), inv->getNormalDest(), body); body << "\n"; } return; }
+      }
+      // Virtual call (callee loaded from slot K of the object's vtable): dispatch explicitly over the functions that
+      // occupy slot K in some vtable of the module, instead of leaving an indirect call for the checker, which would
+      // consider every address-taken function of a compatible shape (all destructors, all std::function thunks ...).
+      {
+        uint64_t K = 0; bool isv = false;
+        if (!cb->getCalledFunction()) {
+          if (auto* l1 = dyn_cast<LoadInst>(cb->getCalledOperand())) {
+            Value* pp = l1->getPointerOperand();
+            if (auto* g = dyn_cast<GetElementPtrInst>(pp)) { if (g->getNumIndices() == 1) if (auto* ci = dyn_cast<ConstantInt>(g->getOperand(1))) { K = ci->getZExtValue(); pp = g->getPointerOperand(); } }
+            if (auto* l2 = dyn_cast<LoadInst>(pp)) if (isa<BitCastInst>(l2->getPointerOperand()) || l2->getPointerOperand()->getType()->getPointerElementType()->isPointerTy()) isv = true;
+          }
+        }
+        std::vector<Function*> cands;
+        if (isv) {
+          for (GlobalVariable& gv : C.M.globals()) {
+            if (!gv.getName().startswith("_ZTV") || !gv.hasInitializer()) continue;
+            auto* cs = dyn_cast<ConstantStruct>(gv.getInitializer());
+            if (!cs) continue;
+            for (unsigned m = 0; m < cs->getNumOperands(); m++) {
+              auto* ca = dyn_cast<ConstantArray>(cs->getOperand(m));
+              if (!ca || 2 + K >= ca->getNumOperands()) continue;
+              auto* fn = dyn_cast<Function>(ca->getOperand(2 + K)->stripPointerCasts());
+              if (!fn || fn->getName() == "__cxa_pure_virtual" || fn->arg_size() != cb->arg_size()) continue;
+              if (fn->getReturnType()->isVoidTy() != cb->getType()->isVoidTy()) continue;
+              if (std::find(cands.begin(), cands.end(), fn) == cands.end()) cands.push_back(fn);
+            }
+          }
+        }
+        if (isv && !cands.empty()) {
+          std::string fpv = val(cb->getCalledOperand());
+          body << "  if (0) {}\n";
+          for (Function* fn : cands) {
+            std::string args;
+            for (unsigned k = 0; k < cb->arg_size(); k++) {
+              std::string a = val(cb->getArgOperand(k));
+              Type* pt = fn->getFunctionType()->getParamType(k);
+              if (pt != cb->getArgOperand(k)->getType()) a = "((" + C.ty(pt) + ")" + a + ")";
+              args += (k ? ", " : "") + a;
+            }
+            std::string call = C.gname(fn) + "(" + args + ")";
+            if (!I.getType()->isVoidTy() && fn->getReturnType() != I.getType()) call = "((" + C.ty(I.getType()) + ")" + call + ")";
+            body << "  else if ((const void*)" << fpv << " == (const void*)&" << C.gname(fn) << ") { " << lhs << call << "; }\n";
+          }
+          body << "  else { VF_FAIL(\"virtual call: target is not a function of that vtable slot\"); }\n";
+          afterCall(*cb);
+          return;
+        }
       }
       std::string args;
       for (unsigned k = 0; k < cb->arg_size(); k++) {
